@@ -287,15 +287,21 @@ func (e *Exec) execInstr(f *frame, in ssa.Instruction, h *Heap, g string) (*Heap
 		for _, a := range x.Call.Args {
 			d.args = append(d.args, e.val(f, a))
 		}
+		d.guardAt = g
 		f.defers = append(f.defers, d)
 	case *ssa.RunDefers:
 		for i := len(f.defers) - 1; i >= 0; i-- {
 			d := f.defers[i]
 			if d.block.Dominates(x.Block()) {
 				_, h, g = e.callWith(f, d.instr, d.call, d.fnv, d.args, h, g)
-			} else if f.gOut[d.block] != "false" {
-				h = e.havocAll(h, "conditional defer")
-				e.drop("conditional defer")
+			} else if f.gOut[d.block] != "false" && d.guardAt != "false" {
+				// registered on some paths only: it runs exactly when execution passed its defer statement
+				gd := and(g, d.guardAt)
+				_, h2, g2 := e.callWith(f, d.instr, d.call, d.fnv, d.args, h.clone(), gd)
+				h = e.mergeHeaps([]*Heap{h2, h}, []string{d.guardAt, not(d.guardAt)})
+				if g2 == "false" {
+					g = e.nameBool("g", and(g, not(d.guardAt)))
+				}
 			}
 		}
 	case *ssa.Go:
